@@ -486,6 +486,7 @@ type clientOpts struct {
 	unread   bool          // before leaving, send one more complete request and do not read its response
 	deadline time.Duration // overall deadline of the session (default 15s)
 	h2cancel bool          // HTTP/2: after the requests, open one more stream and cancel it with RST_STREAM
+	pending  string        // method of one more complete request, sent to a backend that does not answer; the client leaves 150 ms later
 	trickle  bool          // kind stall: half of a real ClientHello at once, then one octet every 70 ms - never silent, never complete
 }
 
@@ -669,6 +670,23 @@ func (s *Scenario) run(kind string, raw net.Conn, id string, o clientOpts) (stri
 	if o.hold != nil {
 		tc.SetDeadline(time.Time{})
 		<-o.hold
+	}
+	if o.pending != "" {
+		if kind == "h2" {
+			sid := uint32(1 + 2*o.requests)
+			blk := h2raw.Block([]h2raw.HF{{":method", o.pending}, {":scheme", "https"}, {":authority", "vf.test"}, {":path", "/hang-" + id}, {"x-vf-tag", id}, {"x-vf-hang", "1"}})
+			if o.pending == "GET" {
+				tc.Write(h2raw.Headers(sid, true, blk, nil, 0))
+			} else {
+				tc.Write(h2raw.Headers(sid, false, blk, nil, 0))
+				tc.Write(h2raw.Data(sid, true, []byte("abc"), -1))
+			}
+		} else if o.pending == "GET" {
+			io.WriteString(tc, "GET /hang-"+id+" HTTP/1.1\r\nHost: vf.test\r\nX-Vf-Hang: 1\r\nX-Vf-Tag: "+id+"\r\n\r\n")
+		} else {
+			io.WriteString(tc, o.pending+" /hang-"+id+" HTTP/1.1\r\nHost: vf.test\r\nX-Vf-Hang: 1\r\nContent-Length: 3\r\nX-Vf-Tag: "+id+"\r\n\r\nabc")
+		}
+		time.Sleep(150 * time.Millisecond) // the request has been forwarded in full, the backend is thinking
 	}
 	if o.partial || o.unread {
 		if kind == "h2" {
